@@ -61,6 +61,9 @@ pub struct TwinCase {
     /// beneficiary was a party of the transaction
     #[serde(default)]
     pub bare_a: bool,
+    /// C28, tracer twin: the trace sink fails (write call index, kind; see sys::arm_trace_fault)
+    #[serde(default)]
+    pub trace_fault: Option<(u64, u8)>,
 }
 
 pub struct TwinSim {
@@ -316,7 +319,8 @@ impl Engine for TwinSim {
             ops.push(op);
         }
         let bare_a = self.mode == "C22" && rng.bool();
-        TwinCase { world, insp_b, ops, bare_a }
+        let trace_fault = if self.mode == "C28" && insp_b == InspKind::Tracer && rng.chance(2, 3) { Some((if rng.bool() { rng.below(6) } else { rng.below(200) }, rng.below(6) as u8)) } else { None };
+        TwinCase { world, insp_b, ops, bare_a, trace_fault }
     }
 
     fn execute(&self, case: &TwinCase, stats: &mut Stats) -> Vec<Violation> {
@@ -467,7 +471,22 @@ fn diff_field(msg: &str) -> String {
 
 /// The twin run. `calls_out`: if given, receives the number of bottom-level database calls
 /// each op made on system A.
-pub fn run_twin(case: &TwinCase, mode: &str, stats: &mut Stats, mut calls_out: Option<&mut Vec<u64>>) -> Vec<Violation> {
+pub fn run_twin(case: &TwinCase, mode: &str, stats: &mut Stats, calls_out: Option<&mut Vec<u64>>) -> Vec<Violation> {
+    // F8: the tracer twin's trace sink fails on schedule
+    arm_trace_fault(if mode == "C28" { case.trace_fault } else { None });
+    let out = run_twin_inner(case, mode, stats, calls_out);
+    let (writes, faults) = trace_write_stats();
+    arm_trace_fault(None);
+    if writes > 0 {
+        stats.add("steps.trace_sink_write_calls", writes);
+    }
+    if faults > 0 {
+        stats.inc("fault.F8_trace_sink_failed");
+    }
+    out
+}
+
+fn run_twin_inner(case: &TwinCase, mode: &str, stats: &mut Stats, mut calls_out: Option<&mut Vec<u64>>) -> Vec<Violation> {
     let w = &case.world;
     let mut cfg_a = w.cfg.clone();
     let mut cfg_b = w.cfg.clone();
